@@ -1408,6 +1408,9 @@ static int ex_exec(char *ln)
 	while (*ln && !ex_deep) {
 		char *txt = NULL;
 		int idx;
+#ifdef NEATVI_VERIF
+		neatvi_verif_progress();
+#endif
 		ln = ex_loc(ln, loc);
 		ln = ex_cmd(ln, cmd);
 		idx = ex_idx(cmd);
